@@ -75,6 +75,15 @@ NO_DROP_NA = ("all", "any")
 # Generation (pure function of the run PRNG; no feedback from execution)
 
 def gen_values(r, dtype, n, groups, na_mode):
+    vals = gen_values_raw(r, dtype, n)
+    if r.random() < 0.4 and n >= 3:
+        # low cardinality: ties, duplicates and repeated values in another order
+        pool = list(dict.fromkeys(vals))[:r.choice([2, 3])]
+        vals = [r.choice(pool) for _ in range(n)]
+    return apply_na(r, dtype, vals, n, groups, na_mode)
+
+
+def gen_values_raw(r, dtype, n):
     vals = []
     for i in range(n):
         if dtype == "bool":
@@ -89,6 +98,10 @@ def gen_values(r, dtype, n, groups, na_mode):
             vals.append(r.choice([0, 5, 5, 10, 12, 365, -400, 19000]))
         else:
             vals.append(r.choice([0, 3, 3, 5, 10**6, 10**12, -10**9, 86400 * 10**6]))
+    return vals
+
+
+def apply_na(r, dtype, vals, n, groups, na_mode):
     if dtype == "bool" or "int" in dtype:
         return vals
     if na_mode == "some":
